@@ -22,8 +22,8 @@ def mc_mod(n_ctrl: int, n_exec: int) -> str:
             "MC_Retries == [ctrl |-> TRUE, exec |-> TRUE]\n====\n")
 
 
-def consts(R: int, faults: int) -> dict:
-    return {"N": "<- MC_N", "R": str(R), "Faults": str(faults), "Retries": "<- MC_Retries"}
+def consts(R: int, faults: int, ages: int = 1) -> dict:
+    return {"N": "<- MC_N", "R": str(R), "Faults": str(faults), "Retries": "<- MC_Retries", "MaxAges": str(ages)}
 
 
 DEFS = "MC_N == [ctrl |-> 1, exec |-> 1]\nMC_Retries == [ctrl |-> TRUE, exec |-> TRUE]\n\\* @init Init\n\\* @vars vars"
@@ -131,7 +131,7 @@ def run(ctx):
     # ---- P2: behaviours replayed into the real code
     R = 2
     num = 300 if ctx.quick else 3000
-    cfg = tlc.cfg_text(spec="Spec", constants=consts(R, 3))
+    cfg = tlc.cfg_text(spec="Spec", constants=consts(R, 3, 2))
     d = tlc.stage(scratch, "sim", ["Acked"], {"MC.tla": mc_mod(2, 2), "MC.cfg": cfg})
     out = d / "b"
     out.mkdir(exist_ok=True)
@@ -159,25 +159,25 @@ def run(ctx):
         ctx.violate(key, f"real endpoints deviate from spec/Acked.tla at step {mm['step']} ({act}): {mm['diffs']}",
                     {"actions": x["actions"][: mm["step"]], "mismatch": mm}, clause="+".join(fields))
     # ---- malformed / well-formed frame shapes through the real Listener, judged by TLC
-    cases_file, shapes = p3.generate(ctx, "Acked", {"N": "<- MC_N", "R": "2", "Faults": "0", "Retries": "<- MC_Retries"},
+    cases_file, shapes = p3.generate(ctx, "Acked", {"N": "<- MC_N", "R": "2", "Faults": "0", "Retries": "<- MC_Retries", "MaxAges": "0"},
                                      modules=["Acked"], tag="shapes", defs=DEFS, env={"PASS": "shapes"})
     # (p3's wrapper extends Acked; constants come from a tiny companion module)
     from ..drive import acked
     res = acked.classify_shapes(shapes)
     resf = scratch / "shape_results.json"
     resf.write_text(json.dumps(res))
-    bad = p3.judge(ctx, "Acked", {"N": "<- MC_N", "R": "2", "Faults": "0", "Retries": "<- MC_Retries"}, cases_file, resf,
+    bad = p3.judge(ctx, "Acked", {"N": "<- MC_N", "R": "2", "Faults": "0", "Retries": "<- MC_Retries", "MaxAges": "0"}, cases_file, resf,
                    modules=["Acked"], tag="shapesj", defs=DEFS, env={"PASS": "shapesj"})
     for i, names in sorted(bad.items()):
         ctx.violate("frames:" + "+".join(sorted(names)), f"Listener._recv_one on frame shape {res[i-1]['shape']} "
                     f"(seen={res[i-1]['seen']}): {sorted(names)}", {"case": res[i - 1]}, clause="+".join(sorted(names)))
     # ---- several senders into one listener (idx counters collide across senders)
-    cf2, seqs = p3.generate(ctx, "Acked", {"N": "<- MC_N", "R": "2", "Faults": "0", "Retries": "<- MC_Retries"},
+    cf2, seqs = p3.generate(ctx, "Acked", {"N": "<- MC_N", "R": "2", "Faults": "0", "Retries": "<- MC_Retries", "MaxAges": "0"},
                             modules=["Acked"], tag="senders", op="GenerateSenders", defs=DEFS, env={"PASS": "senders"})
     res2 = acked.multi_sender(seqs)
     rf2 = scratch / "sender_results.json"
     rf2.write_text(json.dumps(res2))
-    bad2 = p3.judge(ctx, "Acked", {"N": "<- MC_N", "R": "2", "Faults": "0", "Retries": "<- MC_Retries"}, cf2, rf2,
+    bad2 = p3.judge(ctx, "Acked", {"N": "<- MC_N", "R": "2", "Faults": "0", "Retries": "<- MC_Retries", "MaxAges": "0"}, cf2, rf2,
                     modules=["Acked"], tag="sendersj", op="JudgeSenders", defs=DEFS, env={"PASS": "sendersj"})
     for i, names in sorted(bad2.items()):
         ctx.violate("senders:" + "+".join(sorted(names)), f"one Listener, deliveries {seqs[i-1]}: {sorted(names)}; observed {res2[i-1]}",
@@ -191,7 +191,7 @@ def run(ctx):
         "states": states, "transitions": trans, "traces_validated_against_impl": len(reps), "replayed_steps": steps,
         "frame_shapes_checked": len(res),
         "model_runs": [{"name": n, "distinct": r.distinct, "depth": r.depth} for n, r in results],
-        "action_coverage": {a: n for a, n in sorted(cov.items()) if a in ("Send", "Iter", "Tick", "Drop", "Dup")},
+        "action_coverage": {a: n for a, n in sorted(cov.items()) if a in ("Send", "Iter", "Tick", "Age", "Drop", "Dup")},
         "rule": "TLC exhausts spec/Acked.tla (both directions, drop/dup/reorder of data and ack frames, retry budget R) for "
                 "the listed constants incl. the liveness property under fair loops; TLC -simulate behaviours (2 messages per "
                 "direction, 3 faults) are replayed into the real ReliableSender/Listener driven by the real Bridge.recv_events "
